@@ -398,7 +398,7 @@ class Interp:
         bb = ctx.body["blocks"][bi]
         sp = bb["tspan"]
         return {"fn": ctx.body["path"], "id": ctx.body["id"], "bb": bi,
-                "file": sp["f"], "line": sp.get("cl", sp["l"]) if "exp" in sp else sp["l"],
+                "file": sp.get("cf", sp["f"]) if "exp" in sp else sp["f"], "line": sp.get("cl", sp["l"]) if "exp" in sp else sp["l"],
                 "stack": ctx.stack, "what": what}
 
     def note(self, kind, site, ok, detail=None, st=None, **kw):
@@ -1115,7 +1115,8 @@ class Interp:
             if self.recording:
                 sp = s["span"]
                 site = {"fn": ctx.body["path"], "id": ctx.body["id"], "bb": bi, "si": si,
-                        "file": sp["f"], "line": sp.get("cl", sp["l"]) if "exp" in sp else sp["l"], "stack": ctx.stack}
+                        "file": sp.get("cf", sp["f"]) if "exp" in sp else sp["f"],
+                        "line": sp.get("cl", sp["l"]) if "exp" in sp else sp["l"], "stack": ctx.stack}
             v = self.rvalue(ctx, st, s["rv"], dty, site)
             if self.store_hooks and self.recording:
                 tp, _ = self.resolve(ctx, st, mp)
